@@ -20,7 +20,8 @@ EXHAUSTIVE = True
 RULE = ("sharing patterns {shared variable, shared variable in a 2-variable query, shared sub-expression under not_, "
         "shared sub-query, independent, same query object, rule query (refinement/alternative/next_rule), domain-less "
         "Symbol variable, shared predicate} x domains {list, one-shot generator} x schedules: sequential "
-        "(drain / partial+abandon / raise in user predicate, then evaluate again) and interleaved (random next/drain/"
+        "(drain / partial+abandon by close, by dropping the reference or by just never advancing it again / raise in user "
+        "predicate, then evaluate again) and interleaved (random next/drain/"
         "abandon over up to 4 live iterators); thorough enumerates every interleaving of two iterators with <=7 steps "
         "for every pattern.  Non-trivial = at least two evaluations, one of which yields >=2 results; distinct = pattern "
         "x domain kind x schedule shape")
@@ -59,7 +60,7 @@ def gen_schedule(rng, nq, sequential):
     if sequential:
         for _ in range(rng.randint(2, 4)):
             qi = rng.randrange(nq)
-            how = rng.choice(["drain", "drain", "partial_close", "partial_drop", "raise"])
+            how = rng.choice(["drain", "drain", "partial_close", "partial_drop", "partial_park", "partial_park", "raise"])
             sched.append(["start", qi])
             j = len([s for s in sched if s[0] == "start"]) - 1
             if how == "drain":
@@ -71,7 +72,7 @@ def gen_schedule(rng, nq, sequential):
             else:
                 for _ in range(rng.randint(0, 3)):
                     sched.append(["next", j])
-                sched.append(["close" if how == "partial_close" else "drop", j])
+                sched.append([{"partial_close": "close", "partial_drop": "drop", "partial_park": "park"}[how], j])
         return sched
     live = []
     n_it = 0
@@ -315,6 +316,12 @@ def run(spec, ctx):
             if j in its and j not in closed:
                 its[j].close()
                 closed[j] = "closed"
+        elif op == "park":
+            # abandoned for good but still referenced (neither closed nor collected): it is never advanced again
+            j = step[1]
+            if j in its and j not in closed:
+                closed[j] = "parked"
+                C["parked_iterators"] += 1
         elif op == "drop":
             j = step[1]
             if j in its and j not in closed:
